@@ -17,6 +17,9 @@ mod table_layouter;
 
 pub use table_layouter::{SimpleTableLayouter, TableLayouter};
 
+#[cfg(feature = "verif-hooks")]
+pub mod verif_hooks;
+
 use crate::utils::rational::Rational;
 
 /// A chip implements a set of instructions that can be used by gadgets.
@@ -289,6 +292,8 @@ impl<F: Field> Region<'_, F> {
         let cell =
             self.region.assign_advice(&|| annotation().into(), column, offset, &mut || {
                 let v = to();
+                #[cfg(feature = "verif-hooks")]
+                let v = verif_hooks::on_assign_advice::<F, VR>(column.index(), offset, v);
                 let value_f = v.to_field();
                 value = v;
                 value_f
